@@ -240,6 +240,26 @@ def law_sweep(ctx, em):
                 f"two identical consecutive calls of {name} on the same arrays agree")
         except Exception as e:  # noqa
             law(f"array-call-raises:{name}", np.array([True]), [before[0][:3]], f"{name} on ordinary float64 arrays raised {type(e).__name__}: {e}")
+    # a grid the caller updates IN PLACE between two calls (f *= 1e3, f += df, f[:] = ...): the second call is the function of the
+    # current values -- compared with the same call on a fresh copy and, for planck, with scalar calls
+    for name, second in (("planck", Tq), ("rayleighjeans", Tq), ("radiance2planckTb", Iq * 1e-3), ("radiance2rayleighjeansTb", Iq * 1e-3),
+                         ("planck_wavelength", Tq), ("planck_wavenumber", Tq)):
+        fnc = getattr(em, name)
+        grid0 = {"planck_wavelength": C / fq, "planck_wavenumber": fq / C}.get(name, fq)
+        for step, upd in (("scaled by 3", lambda a: a.__imul__(3.0)), ("shifted", lambda a: a.__iadd__(0.1 * a[0])),
+                          ("refilled", lambda a: a.__setitem__(slice(None), a[::-1].copy()))):
+            buf = np.array(grid0, dtype=np.float64)
+            try:
+                fnc(buf, second)
+                upd(buf)
+                got = np.asarray(fnc(buf, second), dtype=float)
+                want = np.asarray(fnc(buf.copy(), np.array(second, dtype=float)), dtype=float)
+                sc0 = float(fnc(float(buf[0]), float(second[0])))
+            except Exception as e:  # noqa
+                law(f"inplace-grid-raises:{name}", np.array([True]), [grid0[:1]], f"{name} raised {type(e).__name__}: {e} on a grid updated in place")
+                continue
+            law(f"inplace-grid:{name}", (rel(got, want) > 1e-14) | np.concatenate([[abs(got[0] - sc0) > 1e-12 * abs(sc0)], np.zeros(got.size - 1, bool)]),
+                [buf, second], f"{name} on a grid {step} in place between two calls = {name} on a fresh copy of the current values")
     v = 10 ** rng.uniform(-7, 15, n)
     # the unit converters on integer-typed input (a Python int, a numpy integer, an integer array): the same numbers as floats
     vi = np.unique(rng.integers(1, 10 ** 6, 40))
